@@ -32,6 +32,9 @@ type Stats struct {
 	Unknown  int
 	Errors   int
 	SolverNs int64
+	SlowNs   int64 // time in queries slower than 50 ms
+	Slow     int
+	MaxNs    int64
 }
 
 type Solver struct {
@@ -262,7 +265,15 @@ func (s *Solver) Check() Result {
 		}
 		break
 	}
-	s.Stats.SolverNs += time.Since(t0).Nanoseconds()
+	dt := time.Since(t0).Nanoseconds()
+	s.Stats.SolverNs += dt
+	if dt > 50e6 {
+		s.Stats.Slow++
+		s.Stats.SlowNs += dt
+	}
+	if dt > s.Stats.MaxNs {
+		s.Stats.MaxNs = dt
+	}
 	s.Stats.Queries++
 	switch res {
 	case Sat:
